@@ -46,6 +46,42 @@ def dump(name):
     return recs
 
 
+def dump_bytes(data):
+    """[(index, record id, ns)] of an event-log file given as bytes, from the independent reader"""
+    import os
+    d = os.path.join(core.scratch_root(), "journals")
+    os.makedirs(d, exist_ok=True)
+    path = os.path.join(d, "evtx-%d.evtx" % os.getpid())
+    with open(path, "wb") as fh:
+        fh.write(data)
+    try:
+        out = subprocess.run([AUXBIN, "evtxdump", path], stdout=subprocess.PIPE, stderr=subprocess.PIPE, check=True).stdout
+    finally:
+        os.unlink(path)
+    recs = []
+    for ln in out.decode().split("\n"):
+        if not ln:
+            continue
+        a, b, c = ln.split("\t", 2)
+        if b == "ERR":
+            raise RuntimeError("independent evtx reader failed on a re-stamped file: %s" % c)
+        recs.append((int(a), int(b), int(c)))
+    return recs
+
+
+def restamped(rng):
+    """the shipped file with its records re-stamped (sim/evtxmut.py) -> (bytes, dump, times, pattern)"""
+    import evtxmut
+    base = fixtures.load("pnp")
+    pattern = rng.choice(evtxmut.PATTERNS)
+    times = evtxmut.gen_times(rng, evtxmut.records(base), pattern)
+    data = evtxmut.restamp(base, times)
+    recs = dump_bytes(data)
+    if [t for (_, _, t) in recs] != [t // 1000 * 1000 for t in times]:      # the evtx crate reads FILETIMEs to the microsecond
+        raise RuntimeError("re-stamped event log: the independent reader does not see the times written")
+    return data, recs, times, pattern
+
+
 def expected_ids(recs, a, b):
     sel = [(i, rid, t) for (i, rid, t) in recs if (a is None or t >= a) and (b is None or t <= b)]
     sel.sort(key=lambda r: (r[2], r[0]))
@@ -73,8 +109,12 @@ def place(rng, recs):
 def run_case(seed, i, tier):
     rng = core.rng_for(seed, PROP, i)
     name = "pnp" if rng.random() < 0.9 else "noevents"
-    recs = dump(name)
-    data = fixtures.load(name)
+    times = pattern = None
+    if name == "pnp" and rng.random() < 0.5:
+        data, recs, times, pattern = restamped(rng)
+    else:
+        recs = dump(name)
+        data = fixtures.load(name)
     cont = rng.choice(("plain", "plain", "gz", "bz2", "xz", "lz4", "tar"))
     if cont == "tar":
         stored = world.to_tar([("e.evtx", data, 1600000000)], rng.choice(("ustar", "gnu", "pax")))
@@ -120,23 +160,27 @@ def run_case(seed, i, tier):
     cr.policies[plan.policy.split(":")[0]] += 1
     cr.probes["container_" + cont] += 1
     cr.probes["window_" + form] += 1
-    times = set(t for (_, _, t) in recs)
-    if a in times or b in times:
+    if pattern:
+        cr.probes["restamped_" + pattern] += 1
+    rtimes = set(t for (_, _, t) in recs)
+    if a in rtimes or b in rtimes:
         cr.probes["bound_exactly_on_a_record_time"] += 1
     if want and len(want) < len(recs):
         cr.probes["selection_partial"] += 1
     cr.decision_hashes.append(tr.decision_hash())
     cr.arrival_hashes.append(tr.arrival_hash())
-    cr.nontrivial_keys.append(core.derive(0, "%s|%s|%s|%s" % (name, cont, a, b)))
+    cr.nontrivial_keys.append(core.derive(0, "%s|%s|%s|%s|%s" % (name, cont, a, b, core.derive(0, repr(times)) if times else "")))
     vs = mergecheck.evaluate(res, None, check_protocol=False)
     if not vs:
         d = check(res.stdout, want)
         if d:
             vs.append(("records_differ", d))
     for (cls, detail) in vs:
-        rp = {"scenario": scn.to_json(), "plan": plan.as_replay(tr).to_json(), "class": cls, "fixture": name, "a": a, "b": b}
-        cr.violations.append(Violation(cls, "file=%s container=%s window=%s (a=%s b=%s) argv=%s: %s" % (name, cont, form, a, b, argv[:-1], detail), rp))
-    cr.sample = {"argv": argv, "fixture": name, "records_in_file": len(recs), "expected_selected": len(want), "a_ns": a, "b_ns": b}
+        rp = {"scenario": scn.to_json(), "plan": plan.as_replay(tr).to_json(), "class": cls, "fixture": name, "a": a, "b": b,
+              "times_ns": times}
+        cr.violations.append(Violation(cls, "file=%s%s container=%s window=%s (a=%s b=%s) argv=%s: %s" % (
+            name, " re-stamped:" + pattern if pattern else "", cont, form, a, b, argv[:-1], detail), rp))
+    cr.sample = {"argv": argv, "fixture": name, "restamped": pattern, "records_in_file": len(recs), "expected_selected": len(want), "a_ns": a, "b_ns": b}
     return cr
 
 
@@ -166,7 +210,12 @@ def classes_of(rp):
     plan = core.Plan.from_json(rp["plan"])
     res = core.execute(scn, plan)
     cl = set(c for (c, _) in mergecheck.evaluate(res, None, check_protocol=False))
-    if not cl and check(res.stdout, expected_ids(dump(rp["fixture"]), rp["a"], rp["b"])):
+    if rp.get("times_ns"):
+        import evtxmut
+        recs = dump_bytes(evtxmut.restamp(fixtures.load("pnp"), rp["times_ns"]))
+    else:
+        recs = dump(rp["fixture"])
+    if not cl and check(res.stdout, expected_ids(recs, rp["a"], rp["b"])):
         cl.add("records_differ")
     return cl
 
@@ -177,11 +226,12 @@ def replay(rp):
 
 
 RULE = ("one case = a shipped .evtx file (Microsoft-Windows-Kernel-PnP%4Configuration.evtx, 227 records, stored out of "
-        "order; NoEvents.evtx) plain or in gz/bz2/xz/lz4/tar, with no window or a window whose bounds sit exactly on / 1 us "
+        "order; NoEvents.evtx) or that file with every record re-stamped (sim/evtxmut.py: shuffled / reversed / all equal / "
+        "tie groups / second edges / increasing; chunk checksums recomputed) plain or in gz/bz2/xz/lz4/tar, with no window or a window whose bounds sit exactly on / 1 us "
         "off / between record times, 35% inside the out-of-order region, optionally next to a text source, under a seeded "
         "schedule; non-trivial = every run; distinct = (file, container, window)")
 ASSUMPTIONS = ["the independent dump uses the same `evtx` crate (record decoding is trusted); ordering, tie rule and windowing are independent",
-               "only the shipped .evtx files are available as inputs"]
+               "record bodies come from the one shipped file with records; creation times (what orders and filters records) are re-stamped freely"]
 
 
 def main(tier):
